@@ -380,7 +380,7 @@ class MapIt(IterBase):
         x = self.a.next(m)
         if x is None:
             return None
-        return m.call_closure(Ref(Cell(self.f), 'v'), [tuple_(x)])
+        return m.call_closure(Ref(Cell(self.f), 'v'), [x])
 
 class FilterMap(IterBase):
     def __init__(self, a, f):
@@ -391,7 +391,7 @@ class FilterMap(IterBase):
             x = self.a.next(m)
             if x is None:
                 return None
-            r = m.call_closure(Ref(Cell(self.f), 'v'), [tuple_(x)])
+            r = m.call_closure(Ref(Cell(self.f), 'v'), [x])
             if is_variant(r, 'Some'):
                 return r.fields[0]
 
@@ -404,7 +404,7 @@ class Filter(IterBase):
             x = self.a.next(m)
             if x is None:
                 return None
-            r = m.call_closure(Ref(Cell(self.f), 'v'), [tuple_(Ref(Cell(x), 'v'))])
+            r = m.call_closure(Ref(Cell(self.f), 'v'), [Ref(Cell(x), 'v')])
             if m.branch(r, 'filter'):
                 return x
 
@@ -547,7 +547,7 @@ def _iterator(m, args, ci):
             x = it.next(m)
             if x is None:
                 return none()
-            r = m.call_closure(Ref(Cell(args[1]), 'v'), [tuple_(x)])
+            r = m.call_closure(Ref(Cell(args[1]), 'v'), [x])
             if m.branch(r, 'position'):
                 return some(k)
             k += 1
@@ -557,7 +557,7 @@ def _iterator(m, args, ci):
             x = it.next(m)
             if x is None:
                 return none()
-            r = m.call_closure(Ref(Cell(args[1]), 'v'), [tuple_(Ref(Cell(x), 'v'))])
+            r = m.call_closure(Ref(Cell(args[1]), 'v'), [Ref(Cell(x), 'v')])
             if m.branch(r, 'find'):
                 return some(x)
     if meth == 'find_map':
@@ -566,7 +566,7 @@ def _iterator(m, args, ci):
             x = it.next(m)
             if x is None:
                 return none()
-            r = m.call_closure(Ref(Cell(args[1]), 'v'), [tuple_(x)])
+            r = m.call_closure(Ref(Cell(args[1]), 'v'), [x])
             if is_variant(r, 'Some'):
                 return r
     if meth in ('any', 'all'):
@@ -575,7 +575,7 @@ def _iterator(m, args, ci):
             x = it.next(m)
             if x is None:
                 return meth == 'all'
-            r = m.call_closure(Ref(Cell(args[1]), 'v'), [tuple_(x)])
+            r = m.call_closure(Ref(Cell(args[1]), 'v'), [x])
             if m.branch(r, meth):
                 if meth == 'any':
                     return True
@@ -627,7 +627,7 @@ def _iterator(m, args, ci):
             x = it.next(m)
             if x is None:
                 return unit()
-            m.call_closure(Ref(Cell(args[1]), 'v'), [tuple_(x)])
+            m.call_closure(Ref(Cell(args[1]), 'v'), [x])
     if meth == 'fold':
         it = _it_arg(m, args)
         acc = args[1]
@@ -635,7 +635,7 @@ def _iterator(m, args, ci):
             x = it.next(m)
             if x is None:
                 return acc
-            acc = m.call_closure(Ref(Cell(args[2]), 'v'), [tuple_(acc, x)])
+            acc = m.call_closure(Ref(Cell(args[2]), 'v'), [acc, x])
     if meth == 'sum':
         it = _it_arg(m, args)
         acc = 0
@@ -662,7 +662,7 @@ def _fn_call(m, args, ci):
             f = tgt
     if isinstance(f, FnItem):
         return m.invoke(f.name, xs)
-    return m.call_closure(f, [tuple_(*xs)] if False else [tup])
+    return m.call_closure(f, xs)
 
 # ----------------------------------------------------------------------------
 # String / str
